@@ -139,6 +139,17 @@ def m_sender_send(c, call, tx, val):
 def m_sender_is_closed(c, call, tx): return BOOL(deref(tx).closed)
 
 
+@reg('UnboundedReceiver::try_recv', 'Receiver::try_recv')
+def m_try_recv(c, call, rx):
+    """non-blocking receive: whatever the lane's `recv` environment would hand out right now"""
+    h = c.env.get('try_recv') or c.env.get('recv')
+    if h is None: raise Unsupported('no environment stub for try_recv')
+    r = h(c, EnvFut('recv', rx=deref(rx)))
+    if r is PENDING: return Err(EnumV('TryRecvError', 'Empty'))
+    if r.variant == 'None': return Err(EnumV('TryRecvError', 'Disconnected'))
+    return Ok(r.fields[0])
+
+
 @reg('UnboundedReceiver::recv', 'Receiver::recv')
 def m_recv(c, call, rx): return EnvFut('recv', rx=deref(rx))
 
